@@ -23,6 +23,7 @@ import random
 import shutil
 
 from vmon import gen, harness as H, invariants as I
+from vmon.commitmon import DOUBLE_RUN_MECH
 from vmon.checks import c01
 
 PROPERTY = "C10"
@@ -54,12 +55,21 @@ DISPATCH_MECHS = {
     "step deferred beyond the defer cap",
     "eligible step while the job loop is parked (lost wake-up)",
     I.STALE_AFTER_MECH,
+    DOUBLE_RUN_MECH,
 }
+
+
+def scenario_deferred_subplan_moved_output():
+    from vmon.checks import c01
+    spec, phases = c01.scenario_deferred_subplan_moved_output()
+    return spec, phases, {"njob": 4, "resources": "cpu:2,gpu:2", "thread_delay": {"p": 0.5, "max": 0.02, "seed": 1}}
 
 
 def gen_cases(tier, seed):
     n = 40 if tier == "quick" else 1000
     cases = [{"id": f"c10-seed-{k}", "seed": seed, "scenario": k} for k in SCENARIOS]
+    cases += [{"id": f"c10-seed-deferred_subplan_moved_output-{i}", "seed": seed * 17 + 1 + i,
+               "scenario": "deferred_subplan_moved_output"} for i in range(5 if tier == "quick" else 40)]
     from vmon.checks import c09
     cases += c09.example_cases("c10", tier, seed + 1)
     cases += [{"id": f"c10-{seed}-{i}", "seed": seed * 7919 + i, "nhist": 3} for i in range(n)]
@@ -160,6 +170,7 @@ def scenario_resources():
 
 
 SCENARIOS = {
+    "deferred_subplan_moved_output": scenario_deferred_subplan_moved_output,
     "resources": scenario_resources,
     "hold_recycled_product": scenario_hold_recycled_product,
     "defer_forever": scenario_defer_forever,
